@@ -8,7 +8,8 @@ Local Open Scope Z_scope.
 (* field of the abstract struct table: requiredness, thrift type code (2 bool, 8 i32, 10 i64, 11 string, 12 struct,
    13 map<string,i32>, 15 list<i32>), sub struct index, declared IDL default (thrift binary + JSON text), name, alias *)
 Record cfld := { c_id : Z; c_req : Z; c_ty : Z; c_sub : Z; c_hasdef : bool; c_defbin : list Z; c_defjson : list Z;
-                 c_name : list Z; c_alias : list Z; c_lit : option dlit }.   (* c_lit: the declared default as the IDL literal *)
+                 c_name : list Z; c_alias : list Z; c_lit : option dlit;   (* c_lit: the declared default as the IDL literal *)
+                 c_http : list Z }.    (* name of the http header the field is mapped to by api.header ([] = not mapped) *)
 Definition cdefs : Type := list (list cfld).
 Definition to_fld (c : cfld) : fld := {| f_id := c_id c; f_req := c_req c; f_hasdef := c_hasdef c |}.
 Definition cstruct (d : cdefs) (i : Z) : option (list cfld) := if i <? 0 then None else nth_error d (Z.to_nat i).
@@ -22,12 +23,13 @@ Fixpoint parse_cflds (n : nat) (fs : list field) : option (list cfld * list fiel
   | O => Some ([], fs)
   | S n' =>
     match fs with
-    | FZ id :: FZ req :: FZ t :: FZ sub :: FZ hd :: FB db :: FB dj :: FB nm :: FB al :: FZ lk :: FZ lz :: FB ls :: r =>
+    | FZ id :: FZ req :: FZ t :: FZ sub :: FZ hd :: FB db :: FB dj :: FB nm :: FB al :: FZ lk :: FZ lz :: FB ls :: FB hh :: r =>
       match parse_cflds n' r with
       | Some (l, r') => Some ({| c_id := id; c_req := req; c_ty := t; c_sub := sub; c_hasdef := negb (hd =? 0);
                                 c_defbin := db; c_defjson := dj; c_name := nm; c_alias := al;
                                 c_lit := if lk =? 1 then Some (DInt lz) else if lk =? 2 then Some (DDouble lz)
-                                         else if lk =? 3 then Some (DStr ls) else if lk =? 4 then Some (DBool (negb (lz =? 0))) else None |} :: l, r')
+                                         else if lk =? 3 then Some (DStr ls) else if lk =? 4 then Some (DBool (negb (lz =? 0))) else None;
+                                c_http := hh |} :: l, r')
       | None => None
       end
     | _ => None
@@ -177,7 +179,7 @@ Fixpoint render_t (n : onode) : option (Z * tval) :=
   end.
 Definition render_struct (l : list onode) : option tval :=
   match render_t (OSub {| c_id := 0; c_req := 0; c_ty := T_STRUCT; c_sub := 0; c_hasdef := false; c_defbin := []; c_defjson := [];
-                          c_name := []; c_alias := []; c_lit := None |} l) with
+                          c_name := []; c_alias := []; c_lit := None; c_http := [] |} l) with
   | Some (_, v) => Some v
   | None => None
   end.
@@ -312,6 +314,36 @@ Fixpoint render_j (by_name : bool) (n : onode) : list Z * jt :=
   | OSub f kids => (c_alias f, JObj (map (render_j by_name) kids))
   end.
 
+(* with EnableHttpMapping and a response setter: a field mapped to a header is delivered there - the present value as text, or
+   the default / zero value when the rule fills it - and does not appear in the body *)
+Definition is_mapped (n : onode) : bool := match n with OVal f _ => negb (bytes_eqb (c_http f) []) | OSub _ _ => false end.
+(* [lvl]: number of struct levels that still see the response setter. t2j hands it to the top-level struct and to the structs
+   that are its direct members; the fields of deeper structs are converted without it (doRecurse is called with resp = nil) *)
+Fixpoint render_jh (lvl : nat) (by_name : bool) (n : onode) : list Z * jt :=
+  match n with
+  | OSub f kids =>
+    (c_alias f, JObj ((fix go (l : list onode) : list (list Z * jt) :=
+                         match l with
+                         | [] => []
+                         | k :: r => if (0 <? lvl)%nat && is_mapped k then go r else render_jh (pred lvl) by_name k :: go r
+                         end) kids))
+  | _ => render_j by_name n
+  end.
+Definition body_of (http by_name : bool) (l : list onode) : jt :=
+  JObj (map (render_jh (if http then 1 else 0) by_name) (filter (fun k => negb (http && is_mapped k)) l)).
+Definition unquote_txt (t : list Z) : list Z := match t with 34 :: r => removelast r | _ => t end.
+Definition hdr_text (f : cfld) (s : vsrc) : list Z :=
+  let t := match s with SGiven _ j => j | SDefault => c_defjson f | SZero => zero_json f end in
+  if c_ty f =? T_STRING then unquote_txt t else t.
+Fixpoint headers_of (lvl : nat) (n : onode) : list (list Z * list Z) :=
+  match n with
+  | OVal f s => if bytes_eqb (c_http f) [] || (lvl =? 0)%nat then [] else [(c_http f, hdr_text f s)]
+  | OSub _ kids => (fix go (l : list onode) : list (list Z * list Z) := match l with [] => [] | k :: r => headers_of (pred lvl) k ++ go r end) kids
+  end.
+Definition hdrs_eqb (exp act : list (list Z * list Z)) : bool :=
+  (length exp =? length act)%nat &&
+  forallb (fun e => match find (fun a => bytes_eqb (fst a) (fst e)) act with Some a => bytes_eqb (snd a) (snd e) | None => false end) exp.
+
 Fixpoint jt_eqb (fuel : nat) (a b : jt) {struct fuel} : bool :=
   match fuel with
   | O => false
@@ -332,20 +364,107 @@ Definition j_match (by_name : bool) (e : eres (list onode)) (err : Z) (actual : 
   | EOk l => Some ((err =? 0) && match actual with Some a => jt_eqb 64 (JObj (map (render_j by_name) l)) a | None => false end)
   end.
 
-(* 1603: t2j. after err/out (out = raw JSON text, informational) come the tokens of the parsed output: ok flag, count, members *)
+Fixpoint parse_hdrs (n : nat) (fs : list field) : option (list (list Z * list Z)) :=
+  match n, fs with
+  | O, [] => Some []
+  | S n', FB k :: FB v :: r => match parse_hdrs n' r with Some l => Some ((k, v) :: l) | None => None end
+  | _, _ => None
+  end.
+
+Definition jh_match (http by_name : bool) (e : eres (list onode)) (err : Z) (actual : option (jt * list (list Z * list Z))) : option bool :=
+  match e with
+  | EErr 99 => None
+  | EErr c => Some (err =? c)
+  | EOk l => Some ((err =? 0) && match actual with
+                                 | Some (a, hs) => jt_eqb 64 (body_of http by_name l) a &&
+                                                   hdrs_eqb (if http then flat_map (headers_of 2) l else []) hs
+                                 | None => false end)
+  end.
+
+(* 1603: t2j. write bit 4 = EnableHttpMapping with a recording response setter in the context. After err/out (out = raw JSON text,
+   informational) come the tokens of the parsed output: ok flag, count, members; then the headers the setter received: count, name,
+   value *)
 Definition check_1603 (fs : list field) : verdict :=
   with_case fs (fun d root p w ms err out rest =>
     let fuel := 64%nat in
+    let http := false in
     let actual := match rest with
-                  | FZ 1 :: FZ n :: r => if (n <? 0) || (n >? 1000) then None else
-                      match parse_jobj (S (length r)) (Z.to_nat n) r with Some (l, []) => Some (JObj l) | _ => None end
+                  | FZ hb :: FZ 1 :: FZ n :: r => if (n <? 0) || (n >? 1000) then None else
+                      match parse_jobj (S (length r)) (Z.to_nat n) r with
+                      | Some (l, FZ hn :: r') => if (hn <? 0) || (hn >? 1000) then None else
+                          match parse_hdrs (Z.to_nat hn) r' with Some hs => Some (JObj l, hs) | None => None end
+                      | _ => None
+                      end
                   | _ => None
                   end in
+    let http := match rest with FZ hb :: _ => negb (hb =? 0) | _ => false end in
     let trk := fun f => tracked p (to_fld f) in
     let spec := expect16 d (w_disallow_unknown w) (fun f => rule p w (to_fld f)) trk (fun _ => false) fuel root ms in
-    if is_true (j_match false spec err actual) then VOk
-    else if is_true (j_match true spec err actual) then VKnown 1622
-    else match j_match false spec err actual with
+    if is_true (jh_match http false spec err actual) then VOk
+    else if is_true (jh_match http true spec err actual) then VKnown 1622
+    else match jh_match http false spec err actual with
          | None => VBad 99 []
          | _ => VBad 1 (match spec with EErr c => [FZ c] | EOk _ => [FZ 0] end)
          end).
+
+(* 1605: descriptor immutability. fields: table, struct index, parse bits, the words of StructDescriptor.Requires() when the
+   descriptor was built, and again after the conversions that used it. Both must be the pristine bitmap the model derives from the
+   IDL (Requireness.desc_bitmap: convertRequireness applied field by field; bitmap_refines_set describes it) *)
+Fixpoint parse_words (n : nat) (fs : list field) : option (list Z * list field) :=
+  match n with
+  | O => Some ([], fs)
+  | S n' => match fs with FZ w :: r => match parse_words n' r with Some (l, r') => Some (w :: l, r') | None => None end | _ => None end
+  end.
+Definition check_1605 (fs : list field) : verdict :=
+  match parse_cdefs fs with
+  | Some (d, FZ si :: FZ pb :: FZ nb :: r) =>
+    if (nb <? 0) || (nb >? 10000) then VBad 99 [] else
+    match parse_words (Z.to_nat nb) r with
+    | Some (before, FZ na :: r') =>
+      if (na <? 0) || (na >? 10000) then VBad 99 [] else
+      match parse_words (Z.to_nat na) r', cstruct d si with
+      | Some (after, []), Some cs =>
+        let model := words (desc_bitmap (popts_of pb) (map to_fld cs)) in
+        vand (expect 1 (list_eqb Z.eqb before model) (map FZ model)) (expect 2 (list_eqb Z.eqb after model) (map FZ model))
+      | _, _ => VBad 99 []
+      end
+    | _ => VBad 99 []
+    end
+  | _ => VBad 99 []
+  end.
+
+(* 1606 (native build) / 1607 (portable copy): j2t with EnableHttpMapping and an EMPTY body; the members are the fields the request
+   headers supply. An empty text is not a JSON document: it is outside the input domain of the property, and the empty-body branch
+   of BinaryConv.do (conv/j2t/impl.go) is a deliberate http-specific path (http-mapping semantics, C17). The request is run only to
+   expose what it does to SHARED state (descriptor bitmaps: check 1605 and the conversions that follow); its own output is judged
+   by the AS-CODED mirror of the branch: for a field mapped to a header the write options decide (the bitmap is not consulted); the
+   other fields go through HandleRequires with ReadHttpValueFallback (off here) in place of all three write options; a missing
+   required field is ErrNotFound / ErrWrite. Where the mirror differs from the rule the verdict is drift 16 (counted, never an alarm). *)
+Definition empty_body_decision (p : popts) (w : wopts) (f : cfld) : action :=
+  if negb (bytes_eqb (c_http f) []) then
+    (if c_req f =? 1 then (if w_require w then write_action p (to_fld f) else AMissing)
+     else if c_req f =? 0 then (if w_default w then write_action p (to_fld f) else ASkip)
+     else (if w_optional w then write_action p (to_fld f) else ASkip))
+  else if negb (tracked p (to_fld f)) then ASkip
+  else if c_req f =? 1 then AMissing
+  else if (c_req f =? 2) && parsed_default p (to_fld f) && w_optional w then write_action p (to_fld f)
+  else ASkip.
+Definition check_j2t_empty (fs : list field) : verdict :=
+  with_case fs (fun d root p w ms err out _ =>
+    let fuel := 64%nat in
+    let none := fun _ : cfld => false in
+    let eng := expect16 d (w_disallow_unknown w) (empty_body_decision p w)
+                 (fun f => negb (bytes_eqb (c_http f) []) || tracked p (to_fld f)) none fuel root ms in
+    let eng_ok := match eng with
+                  | EErr 3 => Some (negb (err =? 0) && negb (err =? 9))      (* any error, not a panic *)
+                  | e => t_match e err out
+                  end in
+    match eng_ok with
+    | Some true =>
+      let spec := expect16 d (w_disallow_unknown w) (fun f => rule p w (to_fld f)) (fun f => tracked p (to_fld f)) none fuel root ms in
+      if is_true (t_match spec err out) then VOk else VDrift 16
+    | Some false => VBad 1 (detail_of eng)
+    | None => VBad 99 []
+    end).
+Definition check_1606 (fs : list field) : verdict := check_j2t_empty fs.
+Definition check_1607 (fs : list field) : verdict := check_j2t_empty fs.
